@@ -482,16 +482,25 @@ func c12Par64(c *Ctx) {
 	procs := []int{1, 2, 4, 16}[r.Intn(4)]
 	old := runtime.GOMAXPROCS(procs)
 	defer runtime.GOMAXPROCS(old)
-	w := []int{0, 1, 2, 3, 8, 64}[r.Intn(6)]
+	w := []int{0, 1, 2, 3, 8, 33, 64}[r.Intn(7)]
 	n := r.Intn(6)
 	var bms []*BM64
-	shape := []string{"generic", "same-bucket", "many-buckets", "with-empties"}[r.Intn(4)]
+	shape := []string{"generic", "same-bucket", "many-buckets", "with-empties", "hundreds-of-buckets"}[r.Intn(5)]
 	for i := 0; i < n; i++ {
 		var m *ISet
 		switch shape {
 		case "same-bucket":
 			inner, _ := genSet(r, GenOpts{MaxChunks: 4, HeavyP: 0.3})
 			m = ivsToSet(shiftIVs(inner.iv, 5<<32))
+		case "hundreds-of-buckets":
+			// more work items than the channels can hold (chunk count > 3*workers+32)
+			m = NewISet()
+			nb := uint64(140 + r.Intn(200))
+			for k := uint64(0); k < nb; k++ {
+				if r.Chance(0.8) || k == 0 || k == nb-1 {
+					m.Add((k+7)<<32 | r.Range(0, 70000))
+				}
+			}
 		case "many-buckets":
 			m = NewISet()
 			for k := uint64(0); k < 12; k++ {
